@@ -867,6 +867,10 @@ class BaseWorkflow(object, metaclass=abc.ABCMeta):
         )
 
         # 2. Update the information of critical path of this workflow.
+        if len(output_task_set) == 0:
+            # empty workflow: nothing to schedule
+            self.critical_path_length = 0.0
+            return
         self.critical_path_length = max(output_task_set, key=lambda task: task.eft).eft
         for task in output_task_set:
             task.lft = self.critical_path_length
